@@ -61,7 +61,13 @@ pub fn consume(r: &mut Rng) -> Consume {
         3 => Consume::AllBack,
         4 | 5 => Consume::Mixed(r.below(3) as u8, r.below(3) as u8),
         6 => Consume::DropNow,
-        _ => Consume::Forget,
+        _ => {
+            if r.chance(1, 2) {
+                Consume::Forget
+            } else {
+                Consume::TakeForget(1 + r.below(3) as u8)
+            }
+        }
     }
 }
 
@@ -151,7 +157,13 @@ pub fn vop(r: &mut Rng, vt: VT) -> VOp {
             34 => VOp::Reserve(reserve_pos(r)),
             35 => VOp::ReserveExact(reserve_pos(r)),
             36 => VOp::TryReserve(reserve_pos(r)),
-            37 => VOp::TryReserveExact(reserve_pos(r)),
+            37 => {
+                if r.chance(1, 2) {
+                    VOp::TryReserveExact(reserve_pos(r))
+                } else {
+                    VOp::TryReserveLimited { n: 1 + small(r), exact: r.chance(1, 2), headroom: *r.pick(&[0usize, 0, 1, 64, 500, 5000]) }
+                }
+            }
             38 => VOp::ShrinkToFit,
             39 => VOp::CloneCmp,
             40 => match r.below(8) {
@@ -180,11 +192,13 @@ pub fn vop(r: &mut Rng, vt: VT) -> VOp {
 }
 
 fn consume_df(r: &mut Rng) -> Consume {
-    // DrainFilter is forward-only and is never forgotten here (forgetting it leaks by design)
-    match r.below(4) {
+    // DrainFilter is forward-only; forgetting it leaks everything not handed out (by design)
+    match r.below(6) {
         0 | 1 => Consume::All,
         2 => Consume::Mixed(r.below(3) as u8, 0),
-        _ => Consume::DropNow,
+        3 => Consume::DropNow,
+        4 => Consume::TakeForget(r.below(3) as u8),
+        _ => Consume::All,
     }
 }
 
